@@ -345,3 +345,68 @@ Definition rtx_alpha (aidle ahdr adw3 apay atail : list N) (s : rtx_state) : lis
   | TSDP | TPAY => apay
   | TLAST | TCRC | TFIN | TABORT => atail
   end.
+Definition rhr_alpha (aw a0 a1 a2 a3 ac : list N) (s : rhr_state) : list N :=
+  match rf s with RWAIT => aw | RDW0 => a0 | RDW1 => a1 | RDW2 => a2 | RDW3 => a3 | RCHK => ac end.
+
+(* ---- the wire specification as a runtime oracle on (input, output) traces of the transmitter -----------------
+   Monitor state: 0 while idle; otherwise the history (sentinel 1) of the packed (input | output << 167) words of the
+   current transaction, starting with the generate cycle.  Each cycle it recomputes from that history
+     - the header (inputs of the generate cycle) and the beats the unit has accepted (cycles with data_sink.ready),
+     - k = number of words accepted on `source` so far,
+   and demands: valid = 1, (data, ctrl) = word k of `wire` for that header and those beats, and done = ready & "this is
+   the last word" (known once the packet is complete: no payload expected, or the beat marked last was accepted).
+   The monitor gives up (environment assumption broken) when an accepted beat violates the stream contract. *)
+Definition RTX_B : N := 2 ^ 206.
+Fixpoint rtx_hist_dec (fuel : nat) (m : N) (acc : list N) : list N :=
+  match fuel with
+  | O => acc
+  | S f => if m <=? 1 then acc else rtx_hist_dec f (N.shiftr m 206) (N.land m (N.ones 206) :: acc)
+  end.
+Definition rtx_hist (m : N) : list N := rtx_hist_dec (N.to_nat (N.size m)) m [].
+
+Definition rtx_io_in (w : N) : rtx_in := rtx_decode w.
+Definition rtx_io_valid (w : N) : bool := N.odd (bits w 167 1).
+Definition rtx_io_word (w : N) : N * N := (bits w 168 32, bits w 200 4).
+Definition rtx_io_done (w : N) : bool := N.odd (bits w 204 1).
+Definition rtx_io_dready (w : N) : bool := N.odd (bits w 205 1).
+
+Fixpoint rtx_beats_contract (bs : list (N * N * bool)) : bool :=     (* (data, mask, last) of the accepted beats *)
+  match bs with
+  | [] => true
+  | (_, v, l) :: t =>
+      if l then negb (rtx_nbytes v =? 0) && match t with [] => true | _ => false end
+      else (v =? 15) && rtx_beats_contract t
+  end.
+
+Definition rtx_spec_mon (h16 c32 : list N -> N) (m i o : N) : option (N * bool) :=
+  let w := i + N.shiftl o 167 in
+  match m with
+  | 0 =>
+      let quiet := negb (rtx_io_valid w) && negb (rtx_io_done w) && negb (rtx_io_dready w) in
+      Some (if i_gen (rtx_io_in w) then RTX_B + w else 0, quiet)
+  | _ =>
+      let hs := rtx_hist m in                       (* generate cycle first *)
+      let cyc := tl hs ++ [w] in                    (* the cycles after it, including this one *)
+      let g := rtx_io_in (hd 0 hs) in
+      let acc := filter rtx_io_dready cyc in
+      let beats3 := map (fun c => (i_ddata (rtx_io_in c), i_dvalid (rtx_io_in c), i_dlast (rtx_io_in c))) acc in
+      if negb (rtx_beats_contract beats3) then None
+      else
+        let p := {| p_dw0 := bits (i_hdr g) 0 32; p_dw1 := bits (i_hdr g) 32 32; p_dw2 := bits (i_hdr g) 64 32;
+                    p_lf := bits (i_hdr g) 96 32; p_beats := map (fun b => (fst (fst b), snd (fst b))) beats3 |} in
+        let ws := wire h16 c32 p in
+        let took := filter (fun c => rtx_io_valid c && i_ready (rtx_io_in c)) (tl hs) in
+        let k := length took in
+        (* the cycle in which the fourth header word was accepted decides "zero-length packet" *)
+        let zlp := match nth_error (filter (fun c => rtx_io_valid c && i_ready (rtx_io_in c)) cyc) 4 with
+                   | Some c => i_dvalid (rtx_io_in c) =? 0
+                   | None => false
+                   end in
+        let complete := negb (p_is_data p) || p_delayed p || zlp || existsb (fun b => snd b) beats3 in
+        let last_word := complete && Nat.eqb (S k) (length ws) in
+        let r := i_ready (rtx_io_in w) in
+        let ok := rtx_io_valid w &&
+                  (let e := nth k ws (0, 0) in (fst (rtx_io_word w) =? fst e) && (snd (rtx_io_word w) =? snd e)) &&
+                  Bool.eqb (rtx_io_done w) (r && last_word) in
+        Some (if r && last_word then 0 else m * RTX_B + w, ok)
+  end.
